@@ -162,7 +162,7 @@ def create_quotas(n, sum_q):
     """
     quotas = []
 
-    quotient = int(sum_q / n)
+    quotient = int(sum_q // n)
     remainder = int(sum_q % n)
     for i in range(n):
         quotas.append(quotient)
